@@ -316,7 +316,7 @@ def _scan(ctl):
     return out
 
 
-def run_scheduled(W, args, n, barriers, prio):
+def run_scheduled(W, args, n, barriers, prio, settle=0.0):
     """Start the runner on world ``W`` with barrier control; release waiting barrier points one at a time, lowest
     priority value first.  Returns (Run, info)."""
     ctl = tempfile.mkdtemp(prefix='ctl', dir=W.dir)
@@ -367,6 +367,8 @@ def run_scheduled(W, args, n, barriers, prio):
             with open(os.path.join(ctl, nxt + '.go'), 'w'):
                 pass
             released.append(nxt)
+            if settle:
+                time.sleep(settle)     # let the parent react to what the released child does before the next release
             g = barriers.get(nxt)
             if g in unfinished:
                 unfinished[g].discard(nxt)
